@@ -365,16 +365,16 @@ func lemma_parseFrame_trans(p *Parser) {
 // terminate without consuming; after a line break a token that can only begin a statement terminates; on the same
 // line anything else is an error in strict mode. Tolerant mode never records an error here and always continues.
 //@ func (p *Parser) ExpectSemicolonASI()
-//@   props C11 C16 C13 C02 C06
+//@   props C11 C16 C13 C02 C06 C03
 //@   use parseFrame ctxStable
 //@   rank 1
 //@   ensures [fail] implies(!result, len(p.errors) == len(old(p.errors))+1)
 //@   ensures [ok] implies(result, len(p.errors) == len(old(p.errors)))
 //@   ensures [tolerant@C13] implies(p.tolerantMode, result && len(p.errors) == len(old(p.errors)))
 //@   ensures [explicit@C02] implies(old(p.PeekToken.Type) == token.SEMICOLON, result && eq(p.CurrentToken, old(p.PeekToken)))
-//@   ensures [virtual@C02,C06] implies(old(p.PeekToken.Type) != token.SEMICOLON, eq(p.CurrentToken, old(p.CurrentToken)) && eq(p.PeekToken, old(p.PeekToken)) && lexer.LexPos(p.lexer) == old(lexer.LexPos(p.lexer)))
-//@   ensures [asi.end@C02,C06] implies(old(p.PeekToken.Type) == token.EOF || old(p.PeekToken.Type) == token.RBRACE, result)
-//@   ensures [asi.newline@C02,C06] implies(old(p.PeekToken.AfterNewline) && startsStatement(old(p.PeekToken.Type)), result)
+//@   ensures [virtual@C02,C06,C03] implies(old(p.PeekToken.Type) != token.SEMICOLON, eq(p.CurrentToken, old(p.CurrentToken)) && eq(p.PeekToken, old(p.PeekToken)) && lexer.LexPos(p.lexer) == old(lexer.LexPos(p.lexer)))
+//@   ensures [asi.end@C02,C06,C03] implies(old(p.PeekToken.Type) == token.EOF || old(p.PeekToken.Type) == token.RBRACE, result)
+//@   ensures [asi.newline@C02,C06,C03] implies(old(p.PeekToken.AfterNewline) && startsStatement(old(p.PeekToken.Type)), result)
 //@   ensures [asi.smart@C13] implies(p.smartSemicolons && old(p.PeekToken.AfterNewline) && (old(p.PeekToken.Type) == token.LPAREN || old(p.PeekToken.Type) == token.LBRACKET), result && len(p.errors) == len(old(p.errors)))
 //@   ensures [asi.sameline@C02,C13] implies(!p.tolerantMode && !old(p.PeekToken.AfterNewline) && old(p.PeekToken.Type) != token.SEMICOLON && old(p.PeekToken.Type) != token.EOF && old(p.PeekToken.Type) != token.RBRACE, !result)
 
@@ -679,11 +679,11 @@ func lemma_parseFrame_trans(p *Parser) {
 //@   ensures [node@C01,C08,C15] isType[*ast.CallExpression](result) && !isNil(result) && eq(result.(*ast.CallExpression).Token, old(p.CurrentToken)) && result.(*ast.CallExpression).Function == left
 
 //@ func (p *Parser) ParseMemberExpression(left)
-//@   props C11 C16 C02 C01 C13
+//@   props C11 C16 C02 C01 C13 C05 C03
 //@   use parseFrame ctxStable exprResult infixResult viaSlot errorSites atToken
 //@   rank 45
 //@   ensures [wf@C11] implies(len(p.errors) == len(old(p.errors)) && !isNil(left), !isNil(result.(*ast.MemberExpression).Object) && !isNil(result.(*ast.MemberExpression).Property))
-//@   ensures [operand.level@C02] ncalls("(*Parser).NextToken") == 1 && ncalls("slotExprFn") == 1 && callOrder("(*Parser).NextToken", 0, "slotExprFn", 0) && callArg[int]("slotExprFn", 0, 1) == MEMBER && callArg[*Parser]("slotExprFn", 0, 0) == p
+//@   ensures [operand.level@C02,C03,C05] ncalls("(*Parser).NextToken") == 1 && ncalls("slotExprFn") == 1 && callOrder("(*Parser).NextToken", 0, "slotExprFn", 0) && callArg[int]("slotExprFn", 0, 1) == MEMBER && callArg[*Parser]("slotExprFn", 0, 0) == p
 //@   ensures [node@C01,C08,C15] isType[*ast.MemberExpression](result) && !isNil(result) && eq(result.(*ast.MemberExpression).Token, old(p.CurrentToken)) && result.(*ast.MemberExpression).Object == left && !result.(*ast.MemberExpression).Computed && result.(*ast.MemberExpression).Property == callResult[ast.Expression]("slotExprFn", 0)
 
 //@ func (p *Parser) ParseComputedMemberExpression(left)
